@@ -237,8 +237,21 @@ func (s connSpec) open(h gws.Event) (*gws.Conn, *memConn, error) {
 		if ext := s.peerExtensions(); ext != "" {
 			hd["Sec-WebSocket-Extensions"] = []string{ext}
 		}
-		c, err := serverConn(opt, h, tap, hd)
+		if s.Recovery != nil {
+			c, err := serverConn(opt, h, tap, hd)
+			if err == nil {
+				tap.resetLog()
+			}
+			return c, tap, err
+		}
+		// Connections of one configuration are accepted by ONE long-lived Upgrader, as in a real server, with a
+		// single-entry compressor pool: deflaters, inflate windows and buffers are re-used from connection to
+		// connection, so state that leaks from one connection into the next is observable.
+		opt.PermessageDeflate.PoolSize = 1
+		rt := sharedUpgrader(fmt.Sprintf("%+v", s), opt)
+		c, err := serverConnWith(rt.up, tap, hd)
 		if err == nil {
+			rt.bind(c, h)
 			tap.resetLog()
 		}
 		return c, tap, err
@@ -304,3 +317,40 @@ func (r *rfcReceiver) receive(wire []byte) (msgs []wireMsg, problem string) {
 }
 
 func goUtf8(b []byte) bool { return utf8.Valid(b) }
+
+// routeHandler lets one Upgrader serve connections that each have their own recording handler.
+type routeHandler struct {
+	up       *gws.Upgrader
+	parallel bool     // message handlers may still be running after OnClose: keep the binding
+	m        sync.Map // *gws.Conn -> gws.Event
+}
+
+var sharedUps sync.Map // spec text -> *routeHandler
+
+func sharedUpgrader(key string, opt *gws.ServerOption) *routeHandler {
+	if v, ok := sharedUps.Load(key); ok {
+		return v.(*routeHandler)
+	}
+	rt := &routeHandler{parallel: opt.ParallelEnabled}
+	rt.up = gws.NewUpgrader(rt, opt)
+	v, _ := sharedUps.LoadOrStore(key, rt)
+	return v.(*routeHandler)
+}
+
+func (r *routeHandler) bind(c *gws.Conn, h gws.Event) { r.m.Store(c, h) }
+func (r *routeHandler) of(c *gws.Conn) gws.Event {
+	if v, ok := r.m.Load(c); ok {
+		return v.(gws.Event)
+	}
+	return gws.BuiltinEventHandler{}
+}
+func (r *routeHandler) OnOpen(c *gws.Conn) { r.of(c).OnOpen(c) }
+func (r *routeHandler) OnClose(c *gws.Conn, err error) {
+	r.of(c).OnClose(c, err)
+	if !r.parallel {
+		r.m.Delete(c)
+	}
+}
+func (r *routeHandler) OnPing(c *gws.Conn, p []byte)          { r.of(c).OnPing(c, p) }
+func (r *routeHandler) OnPong(c *gws.Conn, p []byte)          { r.of(c).OnPong(c, p) }
+func (r *routeHandler) OnMessage(c *gws.Conn, m *gws.Message) { r.of(c).OnMessage(c, m) }
